@@ -27,6 +27,7 @@ func c15(c *Ctx) {
 	c15R5(c)
 	c15R6(c)
 	verifyCommitRule(c, "R7")
+	valsetCacheRule(c, "R8")
 }
 
 const gbi = "gemmill/types.(*ValidatorSet).GetByIndex(a0.valSet,a1.ValidatorIndex)"
